@@ -357,7 +357,7 @@ Section XLayer.
     - rewrite (walk_correct (spb x) (x_ss x) (vhdx_lookup x) (vhdx_emit x) (vhdx_src x) Hspb Hss
                  (vhdx_emit_ok_parent x Hgeom Hstates Hpar) _ _ _ p Hs Hp).
       f_equal. f_equal; lia.
-    - intros o m Hin.
+    - intros o m Hin _.
       destruct (walk_parent_range (spb x) (x_ss x) (vhdx_lookup x) (vhdx_emit x) Hspb Hss
                   vhdx_emit_parent_range _ _ _ p o m Hs Hp Hin) as (K1 & K2 & K3 & K4 & K5).
       repeat split; try assumption; nia.
